@@ -447,6 +447,9 @@ ANY_GUIDED = [(UN, 'ber.decoder::AnyPayloadDecoder.valueDecoder[guided-by-type,c
               (UN, 'ber.decoder::AnyPayloadDecoder.valueDecoder[guided-by-tagmap,complete]')]
 for _p in ('C18', 'C13'):
     PROPS[_p]['contracts'] = PROPS[_p]['contracts'] + ANY_GUIDED
+NATIVE_DEC = [(UN, 'native.decoder::SequenceOrSetPayloadDecoder.__call__'), (UN, 'native.decoder::SequenceOfOrSetOfPayloadDecoder.__call__'),
+              (UN, 'native.decoder::ChoicePayloadDecoder.__call__')]
+PROPS['C17']['contracts'] = PROPS['C17']['contracts'] + NATIVE_DEC
 for _p in list(PROPS):
     NOT_CLAIMED.pop(_p, None)
 
